@@ -115,6 +115,80 @@ def run(F, chk):
                               "Get%sForShape reads per-vertex field %s::%s, but Set%sForShape never writes it: a value stored "
                               "through the setter is not the value read back" % (x, fld[0], fld[1], x))
     chk.floor(R1, 12)
+    # ---------------------------------------------------------------- R13.2
+    import intervals
+    import schema
+    import versions
+    R2 = chk.rule("R13.2", "for every geometry class with a Create(version, ...) and every version region, the largest count Create can "
+                           "store in a counter (its clamp) equals the capacity of the integer through which that class's Sync writes the "
+                           "counter in that region: Create neither drops elements the format can hold nor keeps more than it can write")
+    B = schema.SchemaBuilder(F)
+    VE = versions.VersionEval(F)
+    regs = sorted(set(VE.named_versions().values())) if chk.tier == "quick" else sorted(set(VE.regions()))
+    creates = [f for f in F.fns.values() if f["short"] == "Create" and f.get("cls") and f.get("body") and f.get("tmpl") != "pattern"
+               and f.get("params") and "NiVersion" in (f["params"][0].get("ct") or f["params"][0].get("t") or "")
+               and F.derives_from(f["cls"], "nifly::NiObject")]
+    chk.require(len(creates) >= 3, "fewer than 3 Create(version, ...) functions found")
+    import c08
+    evs = {}
+    for fn in creates:
+        evs[fn["cls"]] = B.events(fn["cls"], "write")
+    groups = c08.signature_groups(B, VE, regs)
+    for fn in sorted(creates, key=lambda f: f["id"]):
+        cls = fn["cls"]
+        fields = {f["name"]: f for _, f in F.fields(cls, inherited=True)}
+        counters = {}
+        for n in walk(fn["body"]):
+            if n["k"] == "Assign" and n["op"] == "=" and is_node(n["l"]) and n["l"]["k"] == "Member" and n["l"].get("base") is None or \
+                    (n["k"] == "Assign" and n["op"] == "=" and is_node(n["l"]) and n["l"]["k"] == "Member" and is_node(n["l"].get("base")) and n["l"]["base"]["k"] == "This"):
+                nm = n["l"]["name"]
+                b = intervals.type_bits((fields.get(nm) or {}).get("t")) or intervals.type_bits((fields.get(nm) or {}).get("ct"))
+                if b and b <= 32:
+                    counters[nm] = b
+        if not counters or evs.get(cls) is None:
+            continue
+        locs = {}
+        for n in walk(fn["body"]):
+            if n["k"] == "Decl":
+                for v in n.get("vars", []):
+                    b = intervals.type_bits(v.get("t")) or intervals.type_bits(v.get("ct"))
+                    if b:
+                        locs[v["id"]] = b
+        seen = set()
+        for sig, rs in sorted(groups.items(), key=lambda kv: kv[1][0]):
+            rep = rs[0]
+            rv = schema.RegionView(B, VE, rep)
+            widths = {}
+            for e in rv.project(evs[cls], drop_local_gates=True):
+                if e[1] in counters and isinstance(e[2], int) and e[0] in ("sync", "val"):
+                    widths[e[1]] = min(widths.get(e[1], 99), e[2])
+            A = intervals.Intervals(fn, locs, members=counters,
+                                    oracle=lambda c, rep=rep: (VE.ev(c, rep) if VE.is_version_expr(c) else None))
+            A.run()
+            for nm in sorted(counters):
+                if nm not in widths:
+                    continue
+                ivs = [env["m:" + nm] for env, _ in A.exit_envs if "m:" + nm in env]
+                his = [iv[1] for iv in ivs]
+                if not his or all(iv[0] == iv[1] for iv in ivs):
+                    continue  # never assigned, or only set to constants (`numMatchGroups = 0`): not a clamp of a caller-supplied size
+                clamp, cap = max(his), (1 << (8 * widths[nm])) - 1
+                k_ = (nm, clamp, cap)
+                if k_ in seen:
+                    continue
+                seen.add(k_)
+                ok = clamp == cap
+                chk.instance(R2, ok=ok, sample={"class": cls, "counter": nm, "version": "%08x/%d/%d" % rep, "create_clamp": clamp,
+                                                "wire_capacity": cap})
+                if not ok:
+                    chk.violation("R13.2", "C13/R13.2:%s:%s" % (cls, nm), where(fn),
+                                  "%s::Create can store at most %d in `%s` for version %08x/%d/%d, but %s::Sync writes that counter "
+                                  "through a %d-byte integer (capacity %d): %s" % (
+                                      cls, clamp, nm, rep[0], rep[1], rep[2], cls, widths[nm], cap,
+                                      "elements the format can hold are silently dropped at creation" if clamp < cap else
+                                      "more elements are kept than the file can describe"))
+    chk.floor(R2, 4)
+
     chk.assumptions += ["quantisation (half floats, byte colours/normals), triangle order, vertex-count preservation and save/reload "
                         "equality are value-level and NOT decided by this check"]
     chk.extra["explanation"] = ("thin partial: setter/getter storage-field agreement only (a necessary condition of read-back); "
